@@ -4,34 +4,291 @@ namespace PV.C09
 open Spec
 variable {σ : Sig}
 
-theorem typed_agree (env : Env σ) (p : TypedParser) (hwf : p.WF) (toks : List σ.T) :
-    Agrees env.view (Ty.typed p).target (parseFiltered env (Ty.typed p).target.mode toks)
-      ((Ty.typed p).parseTokens env toks) := by
-  obtain ⟨h1, h2, h3, h4, h5, h6⟩ := hwf
-  rcases p with ⟨te, ti, lv, pv, me, mi, eit, eo⟩
-  simp only at h1 h2 h3 h4 h5 h6
-  subst h1 h2 h3 h4 h5 h6
-  cases me
-  · simp only [Agrees, Ty.target, Target.mode, Ty.parseTokens, typedTokens, stmtTokens,
-      modModuleTokens, errKindOf, errOffOf]
-    generalize parseFiltered env _ toks = top
+/-! ### `not_before` -/
+
+theorem notBefore_zero {α} (r : Res α) : notBefore 0 r = r := by
+  cases r <;> simp [notBefore]
+
+theorem notBefore_shiftRes {α} (k : Nat) (f : α → α) (r : Res α) :
+    notBefore k (shiftRes k f r) = shiftRes k f r := by
+  cases r <;> simp [notBefore, shiftRes]
+  omega
+
+/-- the clamp is the identity on a result whose error offset (if any) is not below `k` -/
+theorem notBefore_id {α} (k : Nat) (r : Res α) (h : ∀ kind o, r = .err kind o → k ≤ o) : notBefore k r = r := by
+  cases r with
+  | err kind o => have := h kind o rfl; simp [notBefore]; omega
+  | _ => rfl
+
+/-! ### every `T::parse_tokens` is one function of the result of `parse_filtered_tokens` -/
+
+/-- `T::parse_tokens` with the result of `parse_filtered_tokens` replaced by `top` (the model itself,
+    run in an environment whose parser answers `top`) -/
+def ofTop (env : Env σ) (ty : Ty) (top : Res (Mod σ)) : Res (Out σ) :=
+  ty.parseTokens { env with parseTop := fun _ _ => top } []
+
+theorem parseTokens_eq_ofTop (env : Env σ) (ty : Ty) (toks : List σ.T) :
+    ty.parseTokens env toks = ofTop env ty (parseFiltered env ty.parseMode toks) := by
+  cases ty with
+  | typed p =>
+    rcases p with ⟨te, ti, lv, pv, me, mi, eit, eo⟩
+    cases pv <;> rfl
+  | _ => rfl
+
+theorem ofTop_err (env : Env σ) (ty : Ty) (kind : String) (o : Nat) : ofTop env ty (.err kind o) = .err kind o := by
+  cases ty with
+  | typed p =>
+    rcases p with ⟨te, ti, lv, pv, me, mi, eit, eo⟩
+    cases pv <;> rfl
+  | _ => rfl
+
+theorem ofTop_panic (env : Env σ) (ty : Ty) : ofTop env ty .panic = .panic := by
+  cases ty with
+  | typed p =>
+    rcases p with ⟨te, ti, lv, pv, me, mi, eit, eo⟩
+    cases pv <;> rfl
+  | _ => rfl
+
+/-- results that agree after the clamp are projected to results that agree after the clamp -/
+theorem ofTop_clamp_congr (env : Env σ) (ty : Ty) (k : Nat) (a b : Res (Mod σ))
+    (h : notBefore k a = notBefore k b) : notBefore k (ofTop env ty a) = notBefore k (ofTop env ty b) := by
+  cases a with
+  | ok x =>
+    cases b with
+    | ok y => simp [notBefore] at h; subst h; rfl
+    | err _ _ => simp [notBefore] at h
+    | panic => simp [notBefore] at h
+  | err ka oa =>
+    cases b with
+    | ok y => simp [notBefore] at h
+    | err kb ob =>
+      simp only [ofTop_err]
+      simp only [notBefore, Res.err.injEq] at h ⊢
+      exact h
+    | panic => simp [notBefore] at h
+  | panic =>
+    cases b with
+    | ok y => simp [notBefore] at h
+    | err _ _ => simp [notBefore] at h
+    | panic => rfl
+
+
+/-- the projection commutes with translation once the result is clamped (the zero-statement `Eof` of
+    `Stmt` sits at offset 0 whatever the tokens) -/
+theorem ofTop_shift (env : Env σ) (sh : Shift σ) (k : Nat) (laws : ShiftLaws env.view sh) (ty : Ty) (hwf : ty.WF)
+    (top : Res (Mod σ)) :
+    notBefore k (ofTop env ty (shiftRes k (shiftMod sh k) top)) = shiftRes k (Spec.shiftOut sh k) (ofTop env ty top) := by
+  cases ty with
+  | typed p =>
+    obtain ⟨h1, h2, h3, h4, h5, h6⟩ := hwf
+    rcases p with ⟨te, ti, lv, pv, me, mi, eit, eo⟩
+    simp only at h1 h2 h3 h4 h5 h6
+    subst h1 h2 h3 h4 h5 h6
+    cases me
+    · simp only [ofTop, Ty.parseTokens, typedTokens, stmtTokens, modModuleTokens, parseFiltered, errKindOf, errOffOf]
+      rcases top with (m | ⟨kd, o⟩ | _)
+      · cases m with
+        | module m =>
+          rcases hb : m.body with _ | ⟨s1, _ | ⟨s2, tl⟩⟩
+          · simp [Res.map, Res.bind, shiftRes, shiftMod, notBefore, hb] <;> omega
+          · by_cases hk : env.view.stmtKind s1 = mi <;>
+              simp [Res.map, Res.bind, shiftRes, shiftMod, Spec.shiftOut, notBefore, hb, hk, laws.stmtKind,
+                laws.stmtStart, laws.stmtPayload] <;> omega
+          · simp [Res.map, Res.bind, shiftRes, shiftMod, notBefore, hb, laws.stmtStart] <;> omega
+        | _ => simp [Res.map, Res.bind, shiftRes, shiftMod, notBefore] <;> omega
+      · simp [Res.map, Res.bind, shiftRes, notBefore] <;> omega
+      · simp [Res.map, Res.bind, shiftRes, notBefore] <;> omega
+    · simp only [ofTop, Ty.parseTokens, typedTokens, exprTokens, modExpressionTokens, parseFiltered, errKindOf, errOffOf]
+      rcases top with (m | ⟨kd, o⟩ | _)
+      · cases m with
+        | expression m =>
+          by_cases hk : env.view.exprKind m.body = mi <;>
+            simp [Res.map, Res.bind, shiftRes, shiftMod, Spec.shiftOut, notBefore, hk, laws.exprKind,
+              laws.exprStart, laws.exprPayload] <;> omega
+        | _ => simp [Res.map, Res.bind, shiftRes, shiftMod, notBefore] <;> omega
+      · simp [Res.map, Res.bind, shiftRes, notBefore] <;> omega
+      · simp [Res.map, Res.bind, shiftRes, notBefore] <;> omega
+  | stmt =>
+    simp only [ofTop, Ty.parseTokens, stmtTokens, modModuleTokens, parseFiltered]
+    rcases top with (m | ⟨kd, o⟩ | _)
+    · cases m with
+      | module m =>
+        rcases hb : m.body with _ | ⟨s1, _ | ⟨s2, tl⟩⟩
+        · simp [Res.map, Res.bind, shiftRes, shiftMod, notBefore, hb] <;> omega
+        · simp [Res.map, Res.bind, shiftRes, shiftMod, Spec.shiftOut, notBefore, hb] <;> omega
+        · simp [Res.map, Res.bind, shiftRes, shiftMod, notBefore, hb, laws.stmtStart] <;> omega
+      | _ => simp [Res.map, Res.bind, shiftRes, shiftMod, notBefore] <;> omega
+    · simp [Res.map, Res.bind, shiftRes, notBefore] <;> omega
+    · simp [Res.map, Res.bind, shiftRes, notBefore] <;> omega
+  | identifier =>
+    simp only [ofTop, Ty.parseTokens, identifierTokens, exprTokens, modExpressionTokens, parseFiltered]
+    rcases top with (m | ⟨kd, o⟩ | _)
+    · cases m with
+      | expression m =>
+        rcases hn : env.view.nameId m.body with _ | i <;>
+          simp [Res.map, Res.bind, shiftRes, shiftMod, Spec.shiftOut, notBefore, hn, laws.nameId, laws.exprStart] <;> omega
+      | _ => simp [Res.map, Res.bind, shiftRes, shiftMod, notBefore] <;> omega
+    · simp [Res.map, Res.bind, shiftRes, notBefore] <;> omega
+    · simp [Res.map, Res.bind, shiftRes, notBefore] <;> omega
+  | constant =>
+    simp only [ofTop, Ty.parseTokens, constantTokens, exprTokens, modExpressionTokens, parseFiltered]
+    rcases top with (m | ⟨kd, o⟩ | _)
+    · cases m with
+      | expression m =>
+        rcases hn : env.view.constValue m.body with _ | i <;>
+          simp [Res.map, Res.bind, shiftRes, shiftMod, Spec.shiftOut, notBefore, hn, laws.constValue, laws.exprStart] <;> omega
+      | _ => simp [Res.map, Res.bind, shiftRes, shiftMod, notBefore] <;> omega
+    · simp [Res.map, Res.bind, shiftRes, notBefore] <;> omega
+    · simp [Res.map, Res.bind, shiftRes, notBefore] <;> omega
+  | _ =>
+    simp only [ofTop, Ty.parseTokens, suiteTokens, exprTokens, modModuleTokens,
+      modExpressionTokens, modInteractiveTokens, parseFiltered]
+    rcases top with (m | ⟨kd, o⟩ | _)
+    · cases m <;> simp [Res.map, Res.bind, shiftRes, shiftMod, Spec.shiftOut, notBefore] <;> omega
+    · simp [Res.map, Res.bind, shiftRes, notBefore] <;> omega
+    · simp [Res.map, Res.bind, shiftRes, notBefore] <;> omega
+
+/-- … and without the clamp when the zero-statement arm of `Stmt` is not taken -/
+theorem ofTop_shift_exact (env : Env σ) (sh : Shift σ) (k : Nat) (laws : ShiftLaws env.view sh) (ty : Ty) (hwf : ty.WF)
+    (top : Res (Mod σ)) (hne : ty.usesStmt = true → ∀ m, top = .ok (.module m) → m.body ≠ []) :
+    ofTop env ty (shiftRes k (shiftMod sh k) top) = shiftRes k (Spec.shiftOut sh k) (ofTop env ty top) := by
+  cases ty with
+  | typed p =>
+    obtain ⟨h1, h2, h3, h4, h5, h6⟩ := hwf
+    rcases p with ⟨te, ti, lv, pv, me, mi, eit, eo⟩
+    simp only at h1 h2 h3 h4 h5 h6
+    subst h1 h2 h3 h4 h5 h6
+    cases me
+    · simp only [ofTop, Ty.parseTokens, typedTokens, stmtTokens, modModuleTokens, parseFiltered, errKindOf, errOffOf]
+      rcases top with (m | ⟨kd, o⟩ | _)
+      · cases m with
+        | module m =>
+          rcases hb : m.body with _ | ⟨s1, _ | ⟨s2, tl⟩⟩
+          · exact absurd hb (hne (by simp [Ty.usesStmt]) m rfl)
+          · by_cases hk : env.view.stmtKind s1 = mi <;>
+              simp [Res.map, Res.bind, shiftRes, shiftMod, Spec.shiftOut, hb, hk, laws.stmtKind,
+                laws.stmtStart, laws.stmtPayload]
+          · simp [Res.map, Res.bind, shiftRes, shiftMod, hb, laws.stmtStart]
+        | _ => simp [Res.map, Res.bind, shiftRes, shiftMod]
+      · simp [Res.map, Res.bind, shiftRes]
+      · simp [Res.map, Res.bind, shiftRes]
+    · simp only [ofTop, Ty.parseTokens, typedTokens, exprTokens, modExpressionTokens, parseFiltered, errKindOf, errOffOf]
+      rcases top with (m | ⟨kd, o⟩ | _)
+      · cases m with
+        | expression m =>
+          by_cases hk : env.view.exprKind m.body = mi <;>
+            simp [Res.map, Res.bind, shiftRes, shiftMod, Spec.shiftOut, hk, laws.exprKind,
+              laws.exprStart, laws.exprPayload]
+        | _ => simp [Res.map, Res.bind, shiftRes, shiftMod]
+      · simp [Res.map, Res.bind, shiftRes]
+      · simp [Res.map, Res.bind, shiftRes]
+  | stmt =>
+    simp only [ofTop, Ty.parseTokens, stmtTokens, modModuleTokens, parseFiltered]
+    rcases top with (m | ⟨kd, o⟩ | _)
+    · cases m with
+      | module m =>
+        rcases hb : m.body with _ | ⟨s1, _ | ⟨s2, tl⟩⟩
+        · exact absurd hb (hne (by simp [Ty.usesStmt]) m rfl)
+        · simp [Res.map, Res.bind, shiftRes, shiftMod, Spec.shiftOut, hb]
+        · simp [Res.map, Res.bind, shiftRes, shiftMod, hb, laws.stmtStart]
+      | _ => simp [Res.map, Res.bind, shiftRes, shiftMod]
+    · simp [Res.map, Res.bind, shiftRes]
+    · simp [Res.map, Res.bind, shiftRes]
+  | identifier =>
+    simp only [ofTop, Ty.parseTokens, identifierTokens, exprTokens, modExpressionTokens, parseFiltered]
+    rcases top with (m | ⟨kd, o⟩ | _)
+    · cases m with
+      | expression m =>
+        rcases hn : env.view.nameId m.body with _ | i <;>
+          simp [Res.map, Res.bind, shiftRes, shiftMod, Spec.shiftOut, hn, laws.nameId, laws.exprStart]
+      | _ => simp [Res.map, Res.bind, shiftRes, shiftMod]
+    · simp [Res.map, Res.bind, shiftRes]
+    · simp [Res.map, Res.bind, shiftRes]
+  | constant =>
+    simp only [ofTop, Ty.parseTokens, constantTokens, exprTokens, modExpressionTokens, parseFiltered]
+    rcases top with (m | ⟨kd, o⟩ | _)
+    · cases m with
+      | expression m =>
+        rcases hn : env.view.constValue m.body with _ | i <;>
+          simp [Res.map, Res.bind, shiftRes, shiftMod, Spec.shiftOut, hn, laws.constValue, laws.exprStart]
+      | _ => simp [Res.map, Res.bind, shiftRes, shiftMod]
+    · simp [Res.map, Res.bind, shiftRes]
+    · simp [Res.map, Res.bind, shiftRes]
+  | _ =>
+    simp only [ofTop, Ty.parseTokens, suiteTokens, exprTokens, modModuleTokens,
+      modExpressionTokens, modInteractiveTokens, parseFiltered]
+    rcases top with (m | ⟨kd, o⟩ | _)
+    · cases m <;> simp [Res.map, Res.bind, shiftRes, shiftMod, Spec.shiftOut]
+    · simp [Res.map, Res.bind, shiftRes]
+    · simp [Res.map, Res.bind, shiftRes]
+
+
+
+/-! ### agreement with the one tree -/
+
+theorem ofTop_agrees (env : Env σ) (ty : Ty) (hwf : ty.WF) (top : Res (Mod σ)) :
+    Agrees env.view ty.target top (ofTop env ty top) := by
+  cases ty with
+  | typed p =>
+    obtain ⟨h1, h2, h3, h4, h5, h6⟩ := hwf
+    rcases p with ⟨te, ti, lv, pv, me, mi, eit, eo⟩
+    simp only at h1 h2 h3 h4 h5 h6
+    subst h1 h2 h3 h4 h5 h6
+    cases me
+    · simp only [Agrees, Ty.target, ofTop, Ty.parseTokens, typedTokens, stmtTokens,
+        modModuleTokens, parseFiltered, errKindOf, errOffOf]
+      rcases top with (m | ⟨k, o⟩ | _)
+      · cases m with
+        | module m =>
+          rcases hb : m.body with _ | ⟨s1, _ | ⟨s2, tl⟩⟩ <;> simp [Res.map, Res.bind, Res.isErr, hb]
+          constructor <;> intro h <;> simp [h]
+        | _ => simp [Res.map, Res.bind]
+      · simp [Res.map, Res.bind]
+      · simp [Res.map, Res.bind]
+    · simp only [Agrees, Ty.target, ofTop, Ty.parseTokens, typedTokens, exprTokens,
+        modExpressionTokens, parseFiltered, errKindOf, errOffOf]
+      rcases top with (m | ⟨k, o⟩ | _)
+      · cases m with
+        | expression m =>
+          simp [Res.map, Res.bind]
+          constructor <;> intro h <;> simp [h]
+        | _ => simp [Res.map, Res.bind]
+      · simp [Res.map, Res.bind]
+      · simp [Res.map, Res.bind]
+  | stmt =>
+    simp only [Agrees, Ty.target, ofTop, Ty.parseTokens, stmtTokens, modModuleTokens, parseFiltered]
     rcases top with (m | ⟨k, o⟩ | _)
     · cases m with
       | module m =>
         rcases hb : m.body with _ | ⟨s1, _ | ⟨s2, tl⟩⟩ <;> simp [Res.map, Res.bind, Res.isErr, hb]
-        constructor <;> intro h <;> simp [h]
       | _ => simp [Res.map, Res.bind]
     · simp [Res.map, Res.bind]
     · simp [Res.map, Res.bind]
-  · simp only [Agrees, Ty.target, Target.mode, Ty.parseTokens, typedTokens, exprTokens,
-      modExpressionTokens, errKindOf, errOffOf]
-    generalize parseFiltered env _ toks = top
+  | identifier =>
+    simp only [Agrees, Ty.target, ofTop, Ty.parseTokens, identifierTokens, exprTokens, modExpressionTokens,
+      parseFiltered]
     rcases top with (m | ⟨k, o⟩ | _)
     · cases m with
       | expression m =>
-        simp [Res.map, Res.bind]
-        constructor <;> intro h <;> simp [h]
+        rcases hn : env.view.nameId m.body with _ | i <;> simp [Res.map, Res.bind, hn]
       | _ => simp [Res.map, Res.bind]
+    · simp [Res.map, Res.bind]
+    · simp [Res.map, Res.bind]
+  | constant =>
+    simp only [Agrees, Ty.target, ofTop, Ty.parseTokens, constantTokens, exprTokens, modExpressionTokens,
+      parseFiltered]
+    rcases top with (m | ⟨k, o⟩ | _)
+    · cases m with
+      | expression m =>
+        rcases hn : env.view.constValue m.body with _ | i <;> simp [Res.map, Res.bind, hn]
+      | _ => simp [Res.map, Res.bind]
+    · simp [Res.map, Res.bind]
+    · simp [Res.map, Res.bind]
+  | _ =>
+    simp only [Agrees, Ty.target, ofTop, Ty.parseTokens, suiteTokens, exprTokens, modModuleTokens,
+      modExpressionTokens, modInteractiveTokens, parseFiltered]
+    rcases top with (m | ⟨k, o⟩ | _)
+    · cases m <;> simp [Res.map, Res.bind]
     · simp [Res.map, Res.bind]
     · simp [Res.map, Res.bind]
 
@@ -44,6 +301,76 @@ theorem lexMode_eq_target_mode (ty : Ty) (hwf : ty.WF) : ty.lexMode = ty.target.
     subst h1
     cases lv <;> rfl
   | _ => rfl
+
+theorem parseMode_eq_target_mode (ty : Ty) (hwf : ty.WF) : ty.parseMode = ty.target.mode := by
+  cases ty with
+  | typed p =>
+    obtain ⟨-, h2, -, -, -, -⟩ := hwf
+    rcases p with ⟨te, ti, lv, pv, me, mi, eit, eo⟩
+    simp only at h2
+    subst h2
+    cases pv <;> rfl
+  | _ => rfl
+
+/-- agreement survives the clamp of both sides when the nodes that `InvalidToken` is reported at do
+    not start before `k` -/
+theorem agrees_notBefore (v : View σ) (t : Target) (k : Nat) (top : Res (Mod σ)) (out : Res (Out σ))
+    (h : Agrees v t top out) (hs : StartsNotBefore v k top) : Agrees v t (notBefore k top) (notBefore k out) := by
+  obtain ⟨herr, hok⟩ := h
+  obtain ⟨hse, hss⟩ := hs
+  rcases top with (m | ⟨kd, o⟩ | _)
+  · refine ⟨by simp [notBefore], ?_⟩
+    cases t with
+    | stmt =>
+      intro m' hm; simp only [notBefore] at hm
+      obtain ⟨h1, h2⟩ := hok m' hm
+      refine ⟨fun s hs => by rw [h1 s hs]; rfl, fun hl => ?_⟩
+      have := h2 hl
+      revert this; cases out <;> simp [notBefore, Res.isErr]
+    | identifier =>
+      intro m' hm; simp only [notBefore] at hm
+      obtain ⟨h1, h2⟩ := hok m' hm
+      have := hse m' hm
+      refine ⟨fun i hi => by rw [h1 i hi]; rfl, fun hn => ?_⟩
+      rw [h2 hn]; simp [notBefore]; omega
+    | constant =>
+      intro m' hm; simp only [notBefore] at hm
+      obtain ⟨h1, h2⟩ := hok m' hm
+      have := hse m' hm
+      refine ⟨fun i hi => by rw [h1 i hi]; rfl, fun hn => ?_⟩
+      rw [h2 hn]; simp [notBefore]; omega
+    | variant en i =>
+      cases en with
+      | stmt =>
+        intro m' hm; simp only [notBefore] at hm
+        obtain ⟨h1, h2⟩ := hok m' hm
+        refine ⟨fun s hs => ⟨fun hk => by rw [(h1 s hs).1 hk]; rfl, fun hk => ?_⟩, fun hl => ?_⟩
+        · have := hss m' s hm hs
+          rw [(h1 s hs).2 hk]; simp [notBefore]; omega
+        · have := h2 hl
+          revert this; cases out <;> simp [notBefore, Res.isErr]
+      | expr =>
+        intro m' hm; simp only [notBefore] at hm
+        obtain ⟨h1, h2⟩ := hok m' hm
+        have := hse m' hm
+        refine ⟨fun hk => by rw [h1 hk]; rfl, fun hk => ?_⟩
+        rw [h2 hk]; simp [notBefore]; omega
+    | _ =>
+      intro m' hm; simp only [notBefore] at hm
+      rw [hok m' hm]; rfl
+  · have := herr kd o rfl
+    subst this
+    refine ⟨by intro k' o' h; simp only [notBefore, Res.err.injEq] at h ⊢; exact h, ?_⟩
+    cases t with
+    | variant en i => cases en <;> simp [notBefore]
+    | _ => simp [notBefore]
+  · refine ⟨by simp [notBefore], ?_⟩
+    cases t with
+    | variant en i => cases en <;> simp [notBefore]
+    | _ => simp [notBefore]
+
+
+/-! ### the token stream: filter, marker position -/
 
 theorem filterTrivia_shift (env : Env σ) (sh : Shift σ) (k : Nat) (h : ShiftEnv env sh k) (toks : List σ.T) :
     filterTrivia env (toks.map (sh.tok k)) = (filterTrivia env toks).map (sh.tok k) := by
@@ -67,5 +394,59 @@ theorem filterTrivia_id (env : Env σ) (toks : List σ.T)
       intro t ht
       simp [h t ht]
   · rfl
+
+theorem filterTrivia_idem (env : Env σ) (toks : List σ.T) :
+    filterTrivia env (filterTrivia env toks) = filterTrivia env toks := by
+  unfold filterTrivia
+  split <;> simp
+
+/-- dropping the trivia beforehand (as `parse_starts_at` used to) changes nothing: `parse_filtered_tokens`
+    filters itself -/
+theorem parseFiltered_filter (env : Env σ) (m : Mode) (toks : List σ.T) :
+    parseFiltered env m (filterTrivia env toks) = parseFiltered env m toks := by
+  simp only [parseFiltered, filterTrivia_idem]
+
+theorem headless_shift (env : Env σ) (sh : Shift σ) (k : Nat) (h : ShiftEnv env sh k) (toks : List σ.T) :
+    Headless env (toks.map (sh.tok k)) ↔ Headless env toks := by
+  cases toks with
+  | nil => simp [Headless]
+  | cons t rest => simp [Headless, h.tokStart]
+
+theorem markerStart_headless (env : Env σ) (toks : List σ.T) (h : Headless env toks) : markerStart env toks = 0 := by
+  cases toks with
+  | nil => rfl
+  | cons t rest => simp only [Headless] at h; simp [markerStart, h]
+
+theorem markerStart_shift (env : Env σ) (sh : Shift σ) (k : Nat) (h : ShiftEnv env sh k) (toks : List σ.T)
+    (hh : ¬ Headless env toks) : markerStart env (toks.map (sh.tok k)) = markerStart env toks + k := by
+  cases toks with
+  | nil => simp [Headless] at hh
+  | cons t rest =>
+    simp only [Headless] at hh
+    rcases hs : env.tokStart t with _ | s
+    · exact absurd hs hh
+    · simp [markerStart, h.tokStart, hs]
+
+/-- `parse_filtered_tokens` on a translated stream whose first item has a position: exact translation,
+    with no assumption on how the parser uses the marker -/
+theorem parseFiltered_shift_of_head (env : Env σ) (sh : Shift σ) (k : Nat) (h : ShiftEnv env sh k)
+    (m : Mode) (toks : List σ.T) (hh : ¬ Headless env (filterTrivia env toks)) :
+    parseFiltered env m (toks.map (sh.tok k)) = shiftRes k (shiftMod sh k) (parseFiltered env m toks) := by
+  simp only [parseFiltered]
+  rw [filterTrivia_shift env sh k h, markerStart_shift env sh k h _ hh, ← h.parse, List.map_cons, h.marker]
+
+/-- … on ANY translated stream, after the clamp, if the marker in front of a position-less stream is
+    irrelevant up to the clamp -/
+theorem parseFiltered_shift_clamped (env : Env σ) (sh : Shift σ) (k : Nat) (h : ShiftEnv env sh k)
+    (m : Mode) (toks : List σ.T) (hm : Headless env (filterTrivia env toks) → HeadlessMarkerIrrelevant env k) :
+    notBefore k (parseFiltered env m (toks.map (sh.tok k))) = shiftRes k (shiftMod sh k) (parseFiltered env m toks) := by
+  by_cases hh : Headless env (filterTrivia env toks)
+  · have hm := hm hh
+    have hh' := (headless_shift env sh k h _).mpr hh
+    simp only [parseFiltered]
+    rw [filterTrivia_shift env sh k h, markerStart_headless env _ hh, markerStart_headless env _ hh',
+      ← hm m _ hh', ← notBefore_shiftRes, ← h.parse, List.map_cons, h.marker]
+    simp
+  · rw [parseFiltered_shift_of_head env sh k h m toks hh, notBefore_shiftRes]
 
 end PV.C09
